@@ -96,6 +96,10 @@ def _job(args):
             return obj["k%d" % key].rstrip("\n")
         return obj[key]
     r = forkbaton.run_schedule(make, access, scripts, sched)
+    if not r["completed"]:
+        # a loaded machine can starve the processes: one retry with a generous watchdog before it is believed
+        state.clear()
+        r = forkbaton.run_schedule(make, access, scripts, sched, timeout=60.0)
     bad = []
     for p, keys in scripts.items():
         for k, key in enumerate(keys):
